@@ -232,7 +232,7 @@ func TestC11_Insert(t *testing.T) {
 			rt.Fatalf("dig.New: %v", err)
 		}
 		nlogs := rapid.IntRange(1, 4).Draw(rt, "nlogs")
-		blk := eth.Block{Header: eth.Header{Number: 9, Hash: make([]byte, 32)}}
+		blk := eth.Block{Header: eth.Header{Number: 9, Hash: make([]byte, 32), LogsBloom: make([]byte, 256)}}
 		tx := eth.Tx{Idx: 3}
 		type want struct {
 			li   int
